@@ -43,6 +43,10 @@ def handle : List String → String
     match ofHex h, parseBool ap, cs.toNat? with
     | some f, some ap, some cs => showR showImage (loadFile tableKeys cs ap f)
     | _, _, _ => "bad-op"
+  | ["store", cs, st, pos, len, rest] =>
+    match cs.toNat?, st.toNat?, pos.toNat?, len.toNat?, rest.toNat? with
+    | some cs, some st, some pos, some len, some rest => "ok " ++ showBool (storeOom cs st pos len rest)
+    | _, _, _, _, _ => "bad-op"
   | _ => "bad-op"
 
 end PcbV.Drv.C15
